@@ -157,7 +157,19 @@ pub fn tiny_trace(out: &mut Out, rng: &mut Rng, num_counters: usize, ops: usize)
                     return;
                 }
             },
-            12..=18 => match catch(|| t.estimate(h)) {
+            // a whole batch at once, as the policy worker hands it over (`TinyLFU::increments`)
+            12 => {
+                let n = rng.range(1, 9) as usize;
+                let hs: Vec<u64> = (0..n).map(|_| gen_hash(rng, family, universe)).collect();
+                match catch(|| t.increments(hs.clone())) {
+                    Some(()) => out.line(&format!("tiny.incs {} | {}", crate::csv(&hs), tiny_state(&t))),
+                    None => {
+                        out.line(&format!("tiny.incs {} | PANIC", crate::csv(&hs)));
+                        return;
+                    }
+                }
+            }
+            13..=18 => match catch(|| t.estimate(h)) {
                 Some(e) => out.line(&format!("tiny.est {} | {}", h, e)),
                 None => {
                     out.line(&format!("tiny.est {} | PANIC", h));
